@@ -60,6 +60,7 @@ func init() {
 		}),
 		sqlclient.RegisterDriverOpener(sqlite.Open),
 		sqlclient.RegisterTxOpener(sqlite.OpenTx),
+		sqlclient.RegisterCodec(sqlite.MarshalHCL, sqlite.EvalHCL),
 		sqlclient.RegisterURLParser(sqlclient.URLParserFunc(func(u *url.URL) *sqlclient.URL {
 			return &sqlclient.URL{URL: u, DSN: strings.TrimPrefix(u.String(), u.Scheme+"://"), Schema: "main"}
 		})),
